@@ -482,6 +482,7 @@ async def run_worker_case(loop: vclock.VLoop, case: dict, *, settled: Callable[[
             break
         if loop.time() >= horizon:
             trace.horizon_hit = True
+            trace.extra["at_horizon"] = env.probe()  # where every message was while the worker was still running
             break
         if stop_mode != "limit" and all(p.done() for p in producers) and is_settled(trace):
             break
